@@ -2,8 +2,8 @@
 From Coq Require Import String NArith List.
 From GF Require Import Base.Res Base.Bytes Base.Layout Base.Gen Model.NFv5 Spec.EncNFv5.
 Import ListNotations.
-Open Scope N_scope.
 Local Open Scope string_scope.
+Open Scope N_scope.
 
 (* (input line, expected observation by the specification) *)
 Definition c05_gen (stream seed i : N) : list tok * list tok :=
